@@ -7,8 +7,9 @@ import json, os, shutil, subprocess, sys, glob, re, time
 
 ID, var = sys.argv[1], sys.argv[2]
 checks = sys.argv[3:] or [ID]
-src = f"/tmp/wt/{ID}-out/{var}"
-wt = f"/tmp/wt/{ID}"
+ROOT = os.environ.get("SEED_ROOT", "/tmp/wt")
+src = f"{ROOT}/{ID}-out/{var}"
+wt = f"{ROOT}/{ID}"
 env = dict(os.environ, GOFLAGS="-mod=mod", GOPROXY="off", GOSUMDB="off", GOTOOLCHAIN="local")
 
 def sh(cmd, cwd=None, timeout=900):
